@@ -102,6 +102,18 @@ def check_blend(P, R):
             cond = v.args[0]
             cc = cone(dua, cond, cst, interproc=False)
             on_n = any(a.endswith(".n") for a in cc.attrs)
+            # ... the responsibility mass itself, not a quantity derived from it (the adaptation coefficient is constant - never
+            # small - when a fixed ratio is configured)
+            if on_n and isinstance(cond, ast.Compare):
+                from ..dataflow import resolve_name as _rn
+                lhs = cond.left
+                while isinstance(lhs, ast.Subscript):
+                    lhs = lhs.value
+                lhs = _rn(dua, lhs, cst)[0] if isinstance(lhs, ast.Name) else lhs
+                while isinstance(lhs, ast.Subscript):
+                    lhs = lhs.value
+                direct_n = isinstance(lhs, ast.Attribute) and lhs.attr == "n"
+                R.check(direct_n, "GUARD.no-evidence-mass", f.key, f"{src(cond)[:60]}", "tests the responsibility mass n itself", f"the no-evidence test is made on `{src(cond.left)[:30]}`, a quantity derived from the responsibility mass, not on the mass: with a fixed adaptation ratio it is never small, so a component without data is not given the prior's value (0/0 = NaN)", st.lineno)
             small_true = isinstance(cond, ast.Compare) and isinstance(cond.ops[0], (ast.Lt, ast.LtE))
             R.check(on_n and small_true, "GUARD.no-evidence", f.key, f"{src(t)} = np.where({src(cond)[:50]}, ...)", "no-evidence test on the responsibility mass", "the fallback of the adapted parameter is not selected by `n < threshold`", st.lineno)
             # ... against the configured threshold (the same one that floors the counts in the blend), not a constant of its own
